@@ -1,6 +1,21 @@
 """C04 — duration spans everything contained.  Core correspondence (DESIGN.md 7, C04)."""
 import coregen
-from coregen import gen_case, nontrivial as _nt, c_case, shrink_candidates
+from coregen import gen_case, nontrivial as _nt, c_case
+
+
+def shrink_candidates(case):
+    if case.get('k') == 'jb':
+        if case['reps'] > 1:
+            yield dict(case, reps=1)
+        if len(case['firsts']) > 1:
+            yield dict(case, firsts=case['firsts'][:-1])
+        if case['tail']:
+            yield dict(case, tail=False)
+        if case['follow']:
+            yield dict(case, follow=False)
+        return
+    yield from coregen.shrink_candidates(case)
+
 
 ID = 'C04'
 GEN_MODULES = ['Ident', 'Classes']
@@ -16,7 +31,7 @@ TRUSTED = ['Gen/Ident.v, Gen/Classes.v regenerated from the source on every run'
            'Core/Model.v: hand-written model (relation equations, span computation of CircuitCompositeOperation.duration), tied by this correspondence run']
 ASSUMPTIONS = ['binary64 arithmetic exact on generated durations; times compared as integers in ticks of 1/8']
 RULE = ('random build programs as for C01, with a raised share of JOINED_START / JOINED_END relations and long/short duration mixes so that the last-ending operation '
-        'is often not a relation leaf and operations start before the first-added ones; non-trivial: >= 2 leaves and (nested or explicit relation or shared qubit) Plus ~13% structured shapes (coregen.gen_structured: parallel first blocks of unequal length under two levels of repetition with a follower of the first, a repeated block starting with a plain operation and containing a repeated block, two relation branches of unequal depth and length meeting through a barrier, a long chain beside a short operation followed by a repeated block, an early-starting operation in a doubly nested block). Plus observations made AFTER the settings changed (coregen.gen_after_change): the circuit is built, unrolled, listed and every duration read; then the global durations are rotated (half of the cases) and the registry durations permuted (a third of the cases near 10^6 moving by a few units; a fifth set for the FIRST time), and duration, sub-circuit durations and listing are read again; fixed cases: a repeated body starting with a nested block beside a registry-timed wait whose change flips which ends last, and a first-time set key with a follower.')
+        'is often not a relation leaf and operations start before the first-added ones; non-trivial: >= 2 leaves and (nested or explicit relation or shared qubit) Plus ~13% structured shapes (coregen.gen_structured: parallel first blocks of unequal length under two levels of repetition with a follower of the first, a repeated block starting with a plain operation and containing a repeated block, two relation branches of unequal depth and length meeting through a barrier, a long chain beside a short operation followed by a repeated block, an early-starting operation in a doubly nested block). Plus observations made AFTER the settings changed (coregen.gen_after_change): the circuit is built, unrolled, listed and every duration read; then the global durations are rotated (half of the cases) and the registry durations permuted (a third of the cases near 10^6 moving by a few units; a fifth set for the FIRST time), and duration, sub-circuit durations and listing are read again; fixed cases: a repeated body starting with a nested block beside a registry-timed wait whose change flips which ends last, and a first-time set key with a follower.' ' Plus circuits built through the structure-level API in which a sub-circuit carries an EXPLICIT relation (FOLLOWED_BY / JOINED_START / JOINED_END) to an earlier operation: first operations of different lengths on different qubits, with and without an inner follower, repetition 1-2, with and without an operation added afterwards (96 + 24 of 192 combinations in the quick tier, all in the thorough tier); judged by the specification alone (KBlock), listing first and durations first.')
 
 
 def gen_cases(rng, tier):
@@ -31,24 +46,67 @@ def gen_cases(rng, tier):
         c['obs'] = ['plain', 'plain_dur_first', 'unrolled']
         cases.append(c)
     cases += coregen.gen_after_change(rng, 40 if tier == 'quick' else 600, lambda: gen_case(rng, maxlen=rng.choice([3, 6, 10]), p_rel=0.6))
+    # structure-level API: a sub-circuit with an explicit relation to an earlier operation (coq: KBlock, specification only)
+    import itertools
+    combos = list(itertools.product('FSE', [2.0, 0.5], [[1.0, 3.0], [3.0, 1.0], [1.0], [2.0, 2.0, 0.5]], [False, True], [1, 2], [False, True]))
+    if tier == 'quick':
+        combos = combos[::2] + [x for x in combos[1::2] if x[0] == 'E'][:24]
+    for rel, d0, firsts, follow, reps, tail in combos:
+        cases.append({'k': 'jb', 'rel': rel, 'd0': d0, 'firsts': firsts, 'follow': follow, 'reps': reps, 'tail': tail})
     return cases
 
 
 def to_coq(c, o):
+    if c.get('k') == 'jb':
+        if 'error' in o:
+            return "(KBlock None None)"
+        return f"(KBlock {coregen.c_obs(o.get('jb1'))} {coregen.c_obs(o.get('jb2'))})"
     if c.get('obs') == ['after_change']:
-        return c_case(*coregen.after_change_as(c, o, 'unrolled_dur_first'))
-    return c_case(c, o)
+        return "(KCore " + c_case(*coregen.after_change_as(c, o, 'unrolled_dur_first')) + ")"
+    return "(KCore " + c_case(c, o) + ")"
+
+
+F23_CLASS = 'sub-circuit attached JOINED_END through the structure-level API whose reported start is not the earliest start of its operations'
+
+
+def known_class(c, o):
+    """F23: a sub-circuit carrying an explicit JOINED_END relation is itself placed END-aligned with its referent, but listing hands
+    the link down to its first operations, which are then END-aligned one by one; when the block does not end with them (an inner
+    follower) the block's own frame (reported start) and its operations' frame differ and the parent's duration mixes the two.
+    Only that symptom is excused: the relation is JOINED_END, every sub-circuit's own duration equals the extent of what it
+    contains in both observations, and the block's reported start differs from the earliest start of its operations."""
+    if c.get('k') != 'jb' or c.get('rel') != 'E' or 'error' in o:
+        return None
+    for key in ('jb1', 'jb2'):
+        ob = o.get(key)
+        if not ob or not ob.get('comps'):
+            return None
+        for x in ob['comps']:
+            if x['n'] and x['d'] != x['hi'] - x['lo']:
+                return None
+        b = ob['comps'][0]
+        if b['s'] == b['lo']:
+            return None
+    if o['jb1'] != o['jb2']:        # the two observation orders agree: nothing stale is involved
+        return None
+    return F23_CLASS
 
 
 def nontrivial(c, o):
+    if c.get('k') == 'jb':
+        return len(c['firsts']) >= 2 or c['follow']
     return _nt(c)
 
 
 def kind(c):
+    if c.get('k') == 'jb':
+        return 'explicit-relation block:' + c['rel']
     return ('after-change:' if c.get('obs') == ['after_change'] else '') + ('nested' if coregen.has_sub(c['prog']) else 'flat') + ('+rel' if coregen.has_rel(c['prog']) else '')
 
 
 def sample(c, o):
+    if c.get('k') == 'jb':
+        return {'block': c, 'reported_duration': (o.get('jb1') or {}).get('duration')}
     return {'prog': c['prog'], 'env': c['env'], 'reported_duration': (o.get('plain') or {}).get('duration')}
 
 
